@@ -7,7 +7,7 @@ import warnings
 
 import numpy as np
 
-from hyverif.core import digest, same_result, scalar_forms
+from hyverif.core import digest, same_result, scalar_forms, size_edges
 
 ID = "C17"
 SHARDS = {"quick": 8, "thorough": 16}
@@ -27,7 +27,7 @@ ASSUMPTIONS = [
 OBLIGATIONS = {"order=1": 20, "order=10": 10, "nan-innov": 30, "nan-first-steps": 20,
                "nan-inputs": 30, "len=0": 5, "len=1": 5, "default-mean": 30,
                "explicit-ini": 30, "explicit-ini=0": 10, "reject:order": 20, "reject:nan-param": 20,
-               "negative-coef": 30}
+               "negative-coef": 30, "size-edge": 10}
 EPS = 2.0 ** -52
 
 
@@ -110,6 +110,12 @@ def gen_case(rng, it, tier):
         order = 1
     lens = [0, 1, 2, 3, order, order + 1, 50, 500, 5000 if tier == "thorough" else 1200]
     n = lens[it % len(lens)] if it % 2 == 0 else int(rng.integers(0, 300))
+    if it % 10 == 3:
+        ed = size_edges(2, 20001 if tier == "quick" else 100001)
+        n = ed[(it // 10) % len(ed)]
+        tags_extra = ["size-edge"]
+    else:
+        tags_extra = []
     sc = 10.0 ** rng.integers(-3, 4)
     e = rng.normal(size=n) * sc
     mean = float(rng.normal() * sc * rng.choice([0, 1, 10]))
@@ -121,7 +127,7 @@ def gen_case(rng, it, tier):
     if it % 9 == 0:
         mean = 0.0
     nanpat = it % 4
-    tags = []
+    tags = list(tags_extra)
     if n > 0 and nanpat == 1:
         e[rng.random(n) < 0.15] = np.nan
     if n > 0 and nanpat == 2:
